@@ -82,6 +82,22 @@ class KeyPool:
                     break
         return self._get(name, None)
 
+    def ec_x_lenlike(self, alg=13):
+        """An EC key whose X coordinate begins with the octet a DER OCTET STRING wrapper of the point would carry as its length
+        (0x3f for P-256 = 65-2, 0x5f for P-384), second octet not 0x04: as a bare point 04|X|Y it must still be read as a bare point (1 key in 256; cached)"""
+        name = f"ec-x-lenlike-{alg}"
+        if name not in self.data:
+            curve = ec.SECP256R1() if alg == 13 else ec.SECP384R1()
+            n = 32 if alg == 13 else 48
+            while True:
+                k = ec.generate_private_key(curve)
+                x = k.public_key().public_numbers().x.to_bytes(n, "big")
+                if x[0] == 2 * n - 1 and x[1] != 4:
+                    self.data[name] = k.private_bytes(serialization.Encoding.PEM, serialization.PrivateFormat.PKCS8, serialization.NoEncryption()).decode()
+                    self.dirty = True
+                    break
+        return self._get(name, None)
+
     def ec_revoke_carry(self, alg=13):
         """An EC KSK for which setting the REVOKE bit carries: low 16 bits of the accumulator of RDATA(257) >= 0xFF80,
         so the revoked key's tag is tag + 129, not tag + 128 (about 1 key in 512; cached)"""
